@@ -2,7 +2,7 @@
 
 ENGINES = [
     {'name': 'vloop', 'path': 'vp/vloop.py', 'serves_properties': ['C03'], 'kind_free_text': 'virtual asyncio loop with explicit, classified ready-queue (order-preserving-delay scheduler seam)'},
-    {'name': 'explore', 'path': 'vp/explore.py', 'serves_properties': ['C03', 'C06'], 'kind_free_text': 'deviation-bounded stateless schedule explorer (replay prefix on fresh objects, divergence = harness error)'},
+    {'name': 'explore', 'path': 'vp/explore.py', 'serves_properties': ['C03', 'C06', 'C19'], 'kind_free_text': 'deviation-bounded stateless schedule explorer (replay prefix on fresh objects, divergence = harness error)'},
     {'name': 'enumerate', 'path': 'vp/props/*.py', 'serves_properties': ['C01', 'C02', 'C04', 'C05', 'C14', 'C15', 'C18'], 'kind_free_text': 'bounded-exhaustive enumeration of inputs/histories against a Python reference model, executed on the real code'},
 ]
 
@@ -78,6 +78,14 @@ CLAIMS['C05'] = {
     'technique': 'bounded-exhaustive enumeration of buffer geometries x PDU length sequences on two real device stacks with an independent ACL/ISO fragment decoder, plus explicit-state BFS to fixpoint over malformed fragment sequences on the real assembler',
     'text': 'e2e: ACL length L in {5,8,23,27,251,1021} (thorough 12 values, full product on both sides) x buffer count {1,2,64} x transports {LE, classic, LE sharing the BR/EDR queue} x sequences of 1-3 PDUs (payload 0,1, kL-4+{-1,0,1}, 65531..65535) in each direction and duplex: every ACL packet at the host->controller boundary fits L with correct handle/pb/bc and concatenates to the L2CAP frames; the receiver gets every PDU once, in order, byte-identical. iso: SDU lengths at every fragment boundary +-1 x ISO packet lengths x buffer counts on CIS and BIS links incl. sequence-number wrap. assembler: BFS to fixpoint over 14-20 fragment symbols (starts, continuations, overflow, truncated starts, bad pb) on the bare assembler and on the host receive path with two connections; from every reachable state 5 well-formed final PDUs must be delivered intact.',
     'note': 'Default schedule only. Payload contents follow one pattern. L=1 is out of scope (the L2CAP length cannot fit in the first fragment).',
+}
+
+CLAIMS['C19'] = {
+    'level': 'exploration',
+    'engine': 'explore',
+    'technique': 'bounded-exhaustive enumeration of SDP record sets x MTUs x patterns x transactions against a Python reference matcher, deviation-bounded schedule exploration of two interleaved SDP clients, explicit-state BFS over fragment/fault sequences on the real AVDTP/AVCTP assemblers, and exhaustive AVDTP stream operation sequences',
+    'text': 'SDP: real Server/Client over classic channels; record sets (16/32/128-bit UUIDs, nested lists, 12-UUID record) x client MTU {48..51,64,672 (+ up to 65535)} x patterns of 1-12 UUIDs (present/absent/nested/other width) x attribute-id lists x three transaction types incl. answers sized around k x per-response capacity up to the 64-response watchdog; two clients on different peers: all connect/query/disconnect sequences to length 5 (7) and concurrent transactions under all schedules with <=1 (<=2) delivery deviations. Assemblers: BFS depth 7 (9) over fragments of 2-3 messages from an independent spec fragmenter plus wrong label/type, relabelled, empty and short PDUs; every intact message delivered byte-identical exactly once, a broken sequence loses only its own message. AVDTP sender over peer MTU 48..56, 672: fragments fit, packet types/count right, reassembles. AVDTP stream: all operation sequences of length <=4 (<=5) through the Stream API and raw signalling against the spec state table.',
+    'note': 'Four recorded findings: one SDP server state shared by all clients (3 signatures) and the AVCTP assembler expecting a PID in continue/end packets (bumble\'s own test asserts it).',
 }
 
 NOT_CLAIMED = {}
